@@ -7,6 +7,7 @@ import UcantoModel.Model.CarDriver
 import UcantoModel.Model.Did
 import UcantoModel.Model.Cost
 import UcantoModel.Model.UcanJson
+import UcantoModel.Model.Message
 /-!
 # Line-protocol driver
 stdin: one case per line, TAB separated: `op  arg1  arg2 …`
@@ -244,6 +245,22 @@ def doUcan (spec : String) : String :=
     | .error e, _ => bad s!"fields:{e}"
     | _, .error e => bad s!"altered:{e}"
 
+/-- `roundtrip` (C13): the model predicts, from which proofs were embedded, the set of blocks every
+delegation carries; everything else the implementation reports about reading back is expected `T` -/
+def doRoundtrip (world : String) : String :=
+  match Lean.Json.parse world with
+  | .error e => bad s!"world:{e}"
+  | .ok j =>
+    match WorldJson.parseWorld j, (WorldJson.getArr j "tokens") with
+    | .ok p, .ok tj =>
+      let ps : Array WorldJson.Principal := #[]
+      let toks := tj.filterMap fun t => match WorldJson.parseToken ps t with | .ok x => some x | .error _ => none
+      let sets := (List.range toks.size).map fun i => WorldJson.sortNat (Msg.storeOf toks p.inlines (toks.size + 1) i)
+      let js := "[" ++ ",".intercalate (sets.map fun s => "[" ++ ",".intercalate (s.map toString) ++ "]") ++ "]"
+      s!"bs={CarDriver.hash4 js}|readback=T\t-"
+    | .error e, _ => bad s!"world:{e}"
+    | _, .error e => bad s!"tokens:{e}"
+
 def handle (line : String) : String :=
   match line.splitOn "\t" with
   | ["access", mode, world, spine, checker, _, impl] => doAccess mode world spine checker impl
@@ -261,6 +278,7 @@ def handle (line : String) : String :=
   | ["carflip", r, b, m, impl] => doCar "carflip" [r, b, m] impl
   | ["handle", ct, acc, body, _] => doHandle ct acc body
   | ["channel", st, _, _] => doChannel st
+  | ["roundtrip", world, _, _, _] => doRoundtrip world
   | ["ucan", spec, _] => doUcan spec
   | ["rcpt", spec, _] =>
     -- C10_verifies / C10_same / C10_tamper: an issued receipt verifies and reads back unchanged after
